@@ -148,7 +148,7 @@ func commentStart(s string) int {
 
 func firstWord(s string) string {
 	for i, c := range s {
-		if !(c >= 'a' && c <= 'z') {
+		if !(c >= 'a' && c <= 'z' || c >= 'A' && c <= 'Z' || c >= '0' && c <= '9' || c == '_' || c >= 0x80) {
 			return s[:i]
 		}
 	}
